@@ -1589,9 +1589,16 @@ class ScopeStack:
         pattern_nested = re.compile(OutputReferenceNested)
 
         component_locations_to_check = [scope.location]
+        # VV: visit each producer once: a dataflow cycle between two steps would otherwise keep this walk going for ever
+        #     (the cycle itself is reported by the FlowIR validation)
+        locations_checked = set()
 
         while component_locations_to_check:
             location = component_locations_to_check.pop()
+
+            if tuple(location) in locations_checked:
+                continue
+            locations_checked.add(tuple(location))
 
             scope: ScopeStack.Scope = self.scopes[tuple(location)]
             if isinstance(scope.template, Workflow):
